@@ -60,6 +60,7 @@ type Program struct {
 	nAllFuncs int
 
 	helperTab       *helperTable
+	tables          map[*ssa.Global]*constTable
 	fieldOwnerCache map[*types.Var]string // per program: *types.Var identities differ between loads
 }
 
